@@ -1835,6 +1835,39 @@ def _math_floor(it, a, k):
     return math.floor(v)
 
 
+def _setattr(it, a, k):
+    it.setattr(a[0], unbox(a[1]), a[2])
+
+
+def _inspect_getmembers(it, a, k):
+    """inspect.getmembers(obj, predicate=inspect.ismethod): (name, bound method) for every function found on the
+    instance or along the MRO of its class, sorted by name (A-inspect)."""
+    from .interp import ClassMethodVal, StaticMethodVal, PropertyVal
+    obj = a[0]
+    pred = a[1] if len(a) > 1 else k.get('predicate')
+    if not isinstance(obj, Obj) or not (isinstance(pred, Native) and pred.name == 'inspect.ismethod'):
+        raise Unsupported('inspect.getmembers: only (instance, inspect.ismethod) is modelled')
+    names = set()
+    for c in obj.cls.mro:
+        if isinstance(c, ClassVal):
+            for nm, nodes in c.members.items():
+                if isinstance(nodes[-1], (ast.FunctionDef, ast.AsyncFunctionDef)):
+                    names.add(nm)
+    for nm, v in obj.attrs.items():
+        if isinstance(v, Bound):
+            names.add(nm)
+    out = []
+    for nm in sorted(names):
+        v = it.getattr(obj, nm)
+        if isinstance(v, Bound):
+            out.append((nm, v))
+    return out
+
+
+def _methodtype(it, a, k):
+    return Bound(a[0], a[1])
+
+
 def install(it):
     N = it.natives
 
@@ -1868,6 +1901,10 @@ def install(it):
     reg('int.from_bytes', _int_from_bytes)
     reg('math.ceil', _math_ceil)
     reg('math.floor', _math_floor)
+    reg('builtins.setattr', _setattr)
+    reg('inspect.getmembers', _inspect_getmembers)
+    reg('inspect.ismethod', lambda it2, a, k: isinstance(a[0], Bound))
+    reg('types.MethodType', _methodtype)
     reg('enum.auto', lambda it2, a, k: Opaque('auto'))
     reg('logging.getLogger', lambda it2, a, k: Opaque('logger'))
     reg('typing.TypeVar', lambda it2, a, k: Opaque('TypeVar'))
